@@ -40,7 +40,6 @@ from pathlib import Path
 from typing import Any, Callable, Dict, List, Optional, Sequence, Set, Tuple
 
 from fjverif import engines
-from fjverif.stlmon import harness
 from fjverif.stlmon.harness import Operand, Var
 
 Bits = List[int]
@@ -70,16 +69,20 @@ def show_bits(bits: Sequence[int]) -> str:
     return repr(whole) + (f'+bits[{tail}]' if tail else '')
 
 
-class ByteVar(Var):
-    """a buffer of packed bytes: `hex.vec length` cells, 8 data bits per cell (what hex.write_byte stores)."""
+CELL_BITS = {'bit': 1, 'hex': 4, 'byte': 8}
 
-    @property
-    def bits_per_cell(self) -> int:  # type: ignore[override]
-        return 8
+
+def cell_bits(var: Var) -> int:
+    return CELL_BITS[var.kind]
+
+
+def var_bits(var: Var) -> int:
+    return cell_bits(var) * var.length
 
 
 def make_var(name: str, kind: str, length: int) -> Var:
-    return ByteVar(name, 'byte', length) if kind == 'byte' else Var(name, kind, length)
+    """kind 'byte' = a buffer of packed bytes: `hex.vec length` cells used with 8 data bits each (what hex.write_byte stores)."""
+    return Var(name, kind, length)
 
 
 # ------------------------------------------------------------------------------------------------ spec interface
@@ -97,7 +100,7 @@ class Res:
 class Ctx:
     """what a model function sees."""
 
-    def __init__(self, n: int, w: int, v: Dict[str, int], c: Dict[str, int], inp: Bits, monitor: 'IOMonitor'):
+    def __init__(self, n: int, w: int, v: Dict[str, int], c: Dict[str, int], inp: Bits, monitor: Optional['IOMonitor'] = None):
         self.n, self.w, self.v, self.c, self.inp = n, w, v, c, inp
         self._monitor = monitor
         self.stores: List[Tuple[int, bytes]] = []
@@ -105,7 +108,7 @@ class Ctx:
 
     # byte buffers, addressed like the library addresses them: one byte per dw-aligned op
     def load(self, address: int, count: int) -> Optional[bytes]:
-        return self._monitor.buffer_load(address, count)
+        return self._monitor.buffer_load(address, count) if self._monitor is not None else None
 
     def store(self, address: int, data: bytes) -> None:
         self.stores.append((address, bytes(data)))
@@ -139,6 +142,10 @@ class IOSpec:
 
     def var_operands(self) -> List[Operand]:
         return [o for o in self.operands if o.kind in ('bit', 'hex', 'ptr')]
+
+    def dry_run(self, n: int, w: int, consts: Dict[str, int], inp: Bits) -> Optional[Res]:
+        """what the model says about an input alone (operands zero, no buffers): used to classify generated inputs."""
+        return self.model(Ctx(n, w, {o.name: 0 for o in self.var_operands()}, dict(consts), list(inp), None))
 
 
 @dataclass
@@ -218,11 +225,25 @@ def render_program(apps: List[IOApp], variables: List[Var], w: int, init: str, e
 
 
 # ------------------------------------------------------------------------------------------------ the monitor
-class IOMonitor(harness.Monitor):
-    """model + checks; driven bit by bit by the device below. reuses the cell layout code of harness.Monitor."""
+class IOMonitor:
+    """model + checks; driven bit by bit by the device below. the cell layout code is the one of harness.Monitor (kept
+    here so that this monitor does not move when the data-macro monitor is extended)."""
 
     def __init__(self, apps: List[IOApp], variables: List[Var], labels: Dict[str, int], w: int, passes: List[PassCase]):
-        super().__init__(apps, variables, labels, w, len(passes), lambda i, r: {}, random.Random(0))  # type: ignore[arg-type]
+        self.variables, self.w = variables, w
+        self.vars_by_name = {v.name: v for v in variables}
+        self.addr = {v.name: labels[v.name] for v in variables}
+        self.state: Dict[str, int] = {}
+        self.next_app = 0
+        self.pass_index = -1
+        self.ones = 0
+        self.violation: Optional[Dict[str, Any]] = None
+        self.checks = 0
+        self.applications = 0
+        self.cells_compared = 0
+        self.branches_seen: Dict[str, int] = {}
+        self.pass_values: Dict[str, int] = {}
+        self.history: List[str] = []
         self.io_apps = apps
         self.pass_cases = passes
         self.witness = [labels[f'q{k}'] for k in range(len(apps))]
@@ -246,6 +267,35 @@ class IOMonitor(harness.Monitor):
         self.unspecified_operands = 0
         self.nonempty_outputs = 0
         self.unspecified_byte_ranges: List[Tuple[int, int]] = []
+
+    # ---- memory layout of variables: cell i = the op at addr + i*2w; its data sits in the jump word, bits #w..
+    def cell_words(self, var: Var, i: int) -> Tuple[int, int]:
+        base = (self.addr[var.name] + i * 2 * self.w) // self.w
+        return base, base + 1
+
+    def read_var(self, memory: Any, var: Var) -> Tuple[int, bool]:
+        """(value, pristine): pristine = every cell's flip word is 0 and its jump word is exactly value << #w."""
+        value, pristine = 0, True
+        shift = self.w.bit_length()
+        per = cell_bits(var)
+        mask = (1 << per) - 1
+        for i in range(var.length):
+            fw, jw = self.cell_words(var, i)
+            flip, jump = memory.read_word(fw), memory.read_word(jw)
+            digit = (jump >> shift) & mask
+            value |= digit << (i * per)
+            if flip != 0 or jump != digit << shift:
+                pristine = False
+        self.cells_compared += var.length
+        return value, pristine
+
+    def poke_var(self, memory: Any, var: Var, value: int) -> None:
+        shift = self.w.bit_length()
+        per = cell_bits(var)
+        mask = (1 << per) - 1
+        for i in range(var.length):
+            _, jw = self.cell_words(var, i)
+            memory.write_word(jw, ((value >> (i * per)) & mask) << shift)
 
     # ---- byte buffers
     def buffer_of(self, address: int) -> Optional[Tuple[Var, int]]:
@@ -286,7 +336,7 @@ class IOMonitor(harness.Monitor):
         for op in app.spec.var_operands():
             var = self.vars_by_name[app.binding[op.name]]
             cells = app.used_cells(op, self.w)
-            v[op.name] = self.state[var.name] & ((1 << (cells * var.bits_per_cell)) - 1)
+            v[op.name] = self.state[var.name] & ((1 << (cells * cell_bits(var))) - 1)
         return v
 
     def prepare(self, app: IOApp, inp: Bits) -> None:
@@ -310,7 +360,7 @@ class IOMonitor(harness.Monitor):
             if op.name in res.updates:
                 var = self.vars_by_name[app.binding[op.name]]
                 cells = app.used_cells(op, self.w)
-                low = (1 << (cells * var.bits_per_cell)) - 1
+                low = (1 << (cells * cell_bits(var))) - 1
                 self.state[var.name] = (self.state[var.name] & ~low) | (res.updates[op.name] & low)
         for address, data in ctx.stores:
             self.buffer_store(address, data)
@@ -323,7 +373,7 @@ class IOMonitor(harness.Monitor):
             if bit != self.exp_out[self.out_pos]:
                 got = self.exp_out[:self.out_pos] + [bit]
                 self.fail_io('output', f'output bit #{self.out_pos} is {bit}; documented output is {show_bits(self.exp_out)} '
-                                       f'({len(self.exp_out)} bits), observed so far {show_bits(got)}')
+                                       f'({len(self.exp_out)} bits), observed so far {show_bits(got)}', observed_bits=got)
                 return False
             self.out_pos += 1
             self.output_bits_compared += 1
@@ -343,8 +393,6 @@ class IOMonitor(harness.Monitor):
             self.violation = {'macro': '(startup)', 'doc': '', 'n': 0, 'what': 'input', 'detail': 'input read before the first SYNC',
                               'w': self.w}
             return None
-        if self.out_pos < len(self.exp_out) and False:
-            pass
         if self.in_pos < len(self.inp):
             bit = self.inp[self.in_pos]
             self.in_pos += 1
@@ -394,7 +442,7 @@ class IOMonitor(harness.Monitor):
             case = self.pass_cases[self.pass_index]
             self.pass_values = dict(case.values)
             for var in self.variables:
-                value = case.values.get(var.name, 0) % var.modulus
+                value = case.values.get(var.name, 0) % (1 << var_bits(var))
                 self.state[var.name] = value
                 self.poke_var(memory, var, value)
             self.history = []
@@ -448,7 +496,7 @@ class IOMonitor(harness.Monitor):
             if op.name in res.unspecified or (skip_written and op.role in ('w', 'rw')):
                 var = self.vars_by_name[app.binding[op.name]]
                 cells = app.used_cells(op, self.w)
-                open_masks[var.name] = open_masks.get(var.name, 0) | ((1 << (cells * var.bits_per_cell)) - 1)
+                open_masks[var.name] = open_masks.get(var.name, 0) | ((1 << (cells * cell_bits(var))) - 1)
                 self.unspecified_operands += 1
         for address, count in self.unspecified_byte_ranges:
             hit = self.buffer_of(address)
@@ -465,7 +513,9 @@ class IOMonitor(harness.Monitor):
                 role = self.role_of_io(app, var.name)
                 self.fail_io(role, f'{var.name} ({role}) = {got:#x}{"" if pristine else " (non-data bits disturbed)"}, '
                                    f'documented value {self.state[var.name]:#x}'
-                                   + (f' (bits {mask & (var.modulus - 1):#x} unspecified)' if mask else ''))
+                                   + (f' (bits {mask & ((1 << var_bits(var)) - 1):#x} unspecified)' if mask else ''),
+                             observed_var=var.name, observed_value=got, documented_value=self.state[var.name],
+                             observed_operands=[op.name for op in app.spec.var_operands() if app.binding[op.name] == var.name])
                 return False
             if mask:
                 self.state[var.name] = got  # re-synchronise the unspecified part with reality
@@ -499,7 +549,7 @@ class IOMonitor(harness.Monitor):
         self.family_counts[app.spec.family] = self.family_counts.get(app.spec.family, 0) + 1
         return True
 
-    def fail_io(self, what: str, detail: str) -> None:
+    def fail_io(self, what: str, detail: str, **extra: Any) -> None:
         app = self.cur
         assert app is not None
         self.violation = {
@@ -510,6 +560,7 @@ class IOMonitor(harness.Monitor):
             'pass_values': {k: hex(v) for k, v in self.pass_values.items()},
             'pass_index': self.pass_index, 'app_index': self.cur_index,
             'sequence_so_far': self.history[-12:], 'w': self.w,
+            'operand_values': dict(self.cur_v), 'input_bits': list(self.inp), 'documented_bits': list(self.exp_out), **extra,
         }
 
 
